@@ -1,4 +1,6 @@
 import Crv.Proofs.ReaderRoundTrip
+import Crv.Props.C06Pem
+import Crv.Props.C06Chunk
 /-!
 C06 — the streaming reader agrees with the whole-document encoding, for every document of the
 supported profile (`WF`): every entry count, every length size class, v1/v2, with or without
